@@ -261,10 +261,7 @@ def run(tier):
     kf1 = False
     common.import_pregex()
     import pregex.meta.essentials as me
-    run.functions = common.src_fingerprint([me.Integer.__init__, me.PositiveInteger.__init__,
-                                            me.NegativeInteger.__init__, me.UnsignedInteger.__init__,
-                                            getattr(me, "_Integer__integer", me.Integer.__mro__[1].__init__),
-                                            me.Integer.__mro__[1].__init__])
+    run.functions = common.src_fingerprint(common.resolve([(me.Integer, "__init__"), (me.PositiveInteger, "__init__"), (me.NegativeInteger, "__init__"), (me.UnsignedInteger, "__init__"), (None, getattr(me, "_Integer__integer", me.Integer.__mro__[1].__init__)), (me.Integer.__mro__[1], "__init__")]))
     fam, bfam = configs(tier)
     tasks = [("task_spec_selfcheck", (300,))]
     for (s, e) in fam:
